@@ -150,12 +150,16 @@ def classifier(w, expected):
     return role
 
 
-def call_fn(w):
+def call_fn(w, num_workers=None, as_path=False):
+    from pathlib import Path
     from kappadata.copying.folder import copy_folder_from_global_to_local
     from kappadata.copying.image_folder import copy_imagefolder_from_global_to_local
     fn = copy_folder_from_global_to_local if w["fn"] == "folder" else copy_imagefolder_from_global_to_local
     gp, lp, src, dst = paths(w)
-    return lambda: fn(gp, lp, relative_path=w.get("relative_arg", w["relative"]), num_workers=w["num_workers"])
+    nw = w["num_workers"] if num_workers is None else num_workers
+    if as_path:
+        return lambda: fn(Path(gp), Path(lp), relative_path=w.get("relative_arg", w["relative"]), num_workers=nw)
+    return lambda: fn(gp, lp, relative_path=w.get("relative_arg", w["relative"]), num_workers=nw)
 
 
 # ----------------------------------------------------------------------------------------------
@@ -297,7 +301,8 @@ class Spec(core.PropSpec):
         w = gen_world(st("world"))
         rf = st("faults")
         mode = rf.choice(["sweep", "sequence", "sequence"])
-        plan = dict(world=w, mode=mode, list_seed=rf.getrandbits(24), sched_seed=rf.getrandbits(24))
+        plan = dict(world=w, mode=mode, list_seed=rf.getrandbits(24), sched_seed=rf.getrandbits(24), vary_calls=rf.random() < 0.3,
+                    vary_seed=rf.randrange(6))
         if mode == "sweep":
             plan["sweep_only"] = None
             plan["k1s"] = [rf.randint(0, 40), rf.randint(0, 12)] + ([rf.randint(0, 60), rf.randint(0, 25)] if tier != "quick" else [])
@@ -331,6 +336,8 @@ class Spec(core.PropSpec):
                     f["frac"] = 0.5
                 yield dict(world=w, mode="sequence", list_seed=plan["list_seed"], sched_seed=plan["sched_seed"],
                            attempts=[f], clean_calls=2)
+        if plan.get("vary_calls"):
+            yield dict(plan, vary_calls=False)
         if w["relative"] is not None:
             q = core._set(plan, ["world", "relative"], None)
             q["world"]["relative_arg"] = None
@@ -386,7 +393,8 @@ class Spec(core.PropSpec):
         gp, lp, src, dst = paths(w)
         site = f"{w['fn']}"
         role = classifier(w, expected)
-        fn = call_fn(w)
+        fns = [call_fn(w, nw, ap) for nw in (None, 0, 2) for ap in (False, True)]
+        fn = fns[0]
         src_root = G
         src_snap = snapshot(src_root)
         ls, ss = plan["list_seed"], plan["sched_seed"]
@@ -400,7 +408,9 @@ class Spec(core.PropSpec):
             st.before_paths = set(bt or {})
             st.role = role
             st.before_complete = bt is not None and {k: v for k, v in bt.items() if not ("/" not in k and v is not None and k not in expected)} == expected
-            att = m.attempt(fn, fault, list_seed=f"{ls}/{counter[0]}", sched_seed=f"{ss}/{counter[0]}", classify=role)
+            # the retry need not use the settings of the interrupted attempt (other worker count, Path instead of str arguments)
+            use = fns[(plan.get("vary_seed", 0) + counter[0]) % len(fns)] if plan.get("vary_calls") else fn
+            att = m.attempt(use, fault, list_seed=f"{ls}/{counter[0]}", sched_seed=f"{ss}/{counter[0]}", classify=role)
             fired = att["fired"]
             history = history + [[tag, att["status"], (fired or {}).get("kind"), (fired or {}).get("at"), (fired or {}).get("prim"),
                                   (fired or {}).get("role")]]
